@@ -360,7 +360,7 @@ Variable q : path.
 Notation D := (D hatom udiff ops c conv bidir always T1 T2).
 Notation DL := (DL hatom udiff ops c conv bidir always T1 T2 q).
 Notation Good := (Good hatom udiff ops c conv bidir always).
-Notation GoodD := (GoodD conv bidir).
+Notation GoodD := (GoodD conv bidir always).
 Notation irun := (irun conv bidir).
 Notation run_passes := (run_passes conv bidir).
 Notation finish := (finish conv bidir).
@@ -424,13 +424,13 @@ Theorem list_node_good xs ys :
 Proof.
   intros R1 R2 Wy Wx HG.
   assert (HGD : forall k x y, nth_error xs k = Some x -> nth_error ys k = Some y ->
-            DeltaGood.GoodD conv bidir (D x y (snoc q (PIdx k))) (S (length q)) x y).
+            DeltaGood.GoodD conv bidir always (D x y (snoc q (PIdx k))) (S (length q)) x y).
   { intros k x y Hx Hy. rewrite <- (snoc_length q (PIdx k)). apply (HG k x y Hx Hy).
     - eapply resolve_seq_item; [exact R1|reflexivity|exact Hx].
     - eapply resolve_seq_item; [exact R2|reflexivity|exact Hy]. }
   split.
   { apply DL_moved. intros k x y Hx Hy. cbn [Nat.add]. apply (HGD k x y Hx Hy). }
-  intros v Wv Vv. apply veqb_list_inv in Vv as (vs & -> & FV). cbn [wf] in Wv.
+  intros v Wv Vv OB. apply veqb_list_inv in Vv as (vs & -> & FV). cbn [wf] in Wv.
   assert (LV : length vs = length xs) by (eapply Forall2_len; exact FV).
   intros P HA.
   set (m := Nat.min (length xs) (length ys)).
@@ -490,6 +490,7 @@ Proof.
     apply (HR v).
     - eapply forallb_forall in Wv; [exact Wv|eapply nth_error_In; exact Hv].
     - eapply (Forall2_nth _ _ _ FV); eassumption.
+    - apply (okb_list_nth conv bidir always vs xs ys OB i v x y Hv Hx Hy).
     - pose proof (Sa i x y Hx Hy) as SA. cbn [Nat.add] in SA. rewrite <- SA. apply Arr_restrict. exact HA0. }
   destruct R10 as (HS10 & HG10 & _ & _ & HE10).
   pose proof (same_off_trans _ _ _ _ O9 O10) as O. rewrite Hb7 in O.
